@@ -327,6 +327,7 @@ func cmdCheck(args []string) int {
 		maxAlts, maxThreads                                                        int
 		minBound, maxBound                                                         int
 		instances                                                                  int
+		deeper, deeperDone                                                         int
 	}
 	a := agg{minBound: 99}
 	distinct := map[string]bool{}
@@ -358,7 +359,14 @@ func cmdCheck(args []string) int {
 		if !r.Complete && len(r.Violations) == 0 {
 			a.incomplete++
 		}
-		if r.BoundCompleted < a.minBound {
+		deeper := strings.HasSuffix(r.Name, "/deeper")
+		if deeper {
+			a.deeper++
+			if r.Complete {
+				a.deeperDone++
+			}
+		}
+		if r.BoundCompleted < a.minBound && !deeper {
 			a.minBound = r.BoundCompleted
 		}
 		a.maxBound = max(a.maxBound, r.Bound)
@@ -472,6 +480,8 @@ func cmdCheck(args []string) int {
 			"instances_not_finished":        a.incomplete + a.skipped,
 			"deviation_bound_target":        a.maxBound,
 			"deviation_bound_completed_min": a.minBound,
+			"deeper_pass_instances":         a.deeper,
+			"deeper_pass_finished":          a.deeperDone,
 			"choice_points":                 a.points,
 			"max_enabled_alternatives":      a.maxAlts,
 			"max_threads":                   a.maxThreads,
